@@ -126,6 +126,12 @@ func runC03Seq(src sim.Source, o Opts, res *Result) {
 	var history []string
 	var live []*snapshot
 	nontrivial := false
+	if pc.Fanout {
+		if msg, ok := prefillFanout(w, committed, cfg, pool, &nextTag); ok {
+			history = append(history, msg)
+			res.inc("runs_with_fanout_above_50")
+		}
+	}
 
 	recheck := func(where string, wrote bool) {
 		for _, sn := range live {
